@@ -287,6 +287,7 @@ func init() {
 		"(*bytes.Buffer).String":           inBuilderString,
 		"(*bytes.Buffer).WriteString":      inBuilderWrite,
 		"strings.Contains":                 inContains,
+		"strings.TrimPrefix":               inTrimPrefix,
 		"fmt.Sprintf":                      inSprintf,
 		"errors.New":                       inErrorsNew,
 		"errors.Is":                        inErrIs,
@@ -368,6 +369,45 @@ func splitTerm(ex *Exec, s *Term, sep byte, where string) *SliceVal {
 		return sv
 	}
 	if s.op == OpConcat {
+		// a lifted part whose constants contain different numbers of separators: split it by count
+		for i, p := range s.args {
+			if p.op != OpCases || noByte(p, sep) {
+				continue
+			}
+			groups := map[int][]Case{}
+			var order []int
+			for _, k := range p.cases {
+				c := strings.Count(k.V.s, seps)
+				if _, ok := groups[c]; !ok {
+					order = append(order, c)
+				}
+				groups[c] = append(groups[c], k)
+			}
+			if len(order) < 2 {
+				continue
+			}
+			mk := func(x *Term) *Term {
+				parts := make([]*Term, len(s.args))
+				copy(parts, s.args)
+				parts[i] = x
+				return Concat(parts...)
+			}
+			var acc *SliceVal
+			for gi := len(order) - 1; gi >= 0; gi-- {
+				cs := groups[order[gi]]
+				var gs []*Term
+				for _, k := range cs {
+					gs = append(gs, k.G)
+				}
+				sub := splitTerm(ex, mk(mkCases(SStr, cs)), sep, where)
+				if acc == nil {
+					acc = sub
+				} else {
+					acc = iteValue(Or(gs...), sub, acc).(*SliceVal)
+				}
+			}
+			return acc
+		}
 		// distribute over an ITE part
 		for i, p := range s.args {
 			if p.op == OpIte {
@@ -464,6 +504,72 @@ func inBuilderString(ex *Exec, fn *ssa.Function, args []Value, g *Term, where st
 		}
 	}
 	return acc
+}
+
+// strings.TrimPrefix(s, "/") on structured strings (used by harnesses to build v2 vectors)
+func inTrimPrefix(ex *Exec, fn *ssa.Function, args []Value, g *Term, where string) Value {
+	s, p := args[0].(*Term), args[1].(*Term)
+	if allLiftable(s, p) {
+		return lift(SStr, func(cs []*Term) *Term { return Str(strings.TrimPrefix(cs[0].s, cs[1].s)) }, s, p)
+	}
+	if !isStrConst(p) || len(p.s) != 1 {
+		unsupported("strings.TrimPrefix with a non-constant or multi-byte prefix at %s", where)
+	}
+	return trimLead(s, p.s[0], where)
+}
+
+func trimLead(s *Term, c byte, where string) *Term {
+	switch s.op {
+	case OpConst:
+		return Str(strings.TrimPrefix(s.s, string(c)))
+	case OpCases:
+		return lift(SStr, func(cs []*Term) *Term { return Str(strings.TrimPrefix(cs[0].s, string(c))) }, s)
+	case OpIte:
+		return Ite(s.args[0], trimLead(s.args[1], c, where), trimLead(s.args[2], c, where))
+	case OpConcat:
+		first := s.args[0]
+		if first.Liftable() {
+			// the first part decides, provided it is never empty
+			for _, k := range casesOf(first) {
+				if k.V.s == "" {
+					unsupported("TrimPrefix: possibly empty first part at %s", where)
+				}
+			}
+			parts := append([]*Term{trimLead(first, c, where)}, s.args[1:]...)
+			return Concat(parts...)
+		}
+	case OpSegStr:
+		if s.s[0] == c {
+			n, segs := segParts(s)
+			// leading separator <=> first segment empty and at least two segments
+			if isStrConst(segs[0]) && segs[0].s == "" {
+				min := int64(1 << 30)
+				for _, k := range casesOf(n) {
+					if k.V.i < min {
+						min = k.V.i
+					}
+				}
+				if min >= 2 {
+					return mkSegStr(c, BVBin(OpBVSub, n, BV(1)), segs[1:])
+				}
+				// n == 1 means the empty string: nothing to trim
+				var one *Term = False
+				for _, k := range casesOf(n) {
+					if k.V.i == 1 {
+						one = k.G
+					}
+				}
+				rest := mkSegStr(c, Ite(one, BV(1), BVBin(OpBVSub, n, BV(1))), append([]*Term{}, segs[1:]...))
+				if len(segs) < 2 {
+					return Str("")
+				}
+				_ = rest
+				return Ite(one, Str(""), mkSegStr(c, Ite(one, BV(1), BVBin(OpBVSub, n, BV(1))), segs[1:]))
+			}
+		}
+	}
+	unsupported("strings.TrimPrefix on %v at %s", s.str(2), where)
+	return nil
 }
 
 func inContains(ex *Exec, fn *ssa.Function, args []Value, g *Term, where string) Value {
